@@ -334,6 +334,7 @@ def run_case(case):
       mjw.forward(m2, d2)
       ovf1, ovf2 = mw.overflow(d), mw.overflow(d2)
       rows_agree = [False] * nworld
+      qacc_ok = [False] * nworld
       for w in range(nworld):
         r1, r2 = rows_w[w], mw.efc_rows(mjm2, m2, d2, w)
         ctx = f"world {w} (dense vs sparse)"
@@ -381,8 +382,8 @@ def run_case(case):
         Pd = E.problem(mjm, m, d, w, r1)
         if Pd["cone_bad"] or (Pd["n"] and np.any((Pd["D"] >= 1e12) & ~Pd["inert"])):
           continue
-        if not (E.hessian_condition(Pd) < 1e8):
-          rec.count("dense_vs_sparse_qacc_not_judged(hessian condition > 1e8)")
+        if not (E.hessian_condition(Pd) < 5e6):
+          rec.count("dense_vs_sparse_qacc_not_judged(hessian condition > 5e6)")
           continue
         q2 = np.asarray(mw.npy(d2.qacc)[w], dtype=np.float64)[: mjm.nv]
         if not np.all(np.isfinite(q2)) or not np.all(np.isfinite(Pd["qacc"])):
@@ -404,8 +405,11 @@ def run_case(case):
         if float(np.abs(info["grad"]).max()) > 1e-9 * max(1e-300, float(gm.max())) and info["gradnorm"] / Pd["scale"] > 1e-9:
           rec.count("dense_vs_sparse_ref_optimum_not_converged")
           continue
+        qacc_ok[w] = True
         for nm, c in (("own", c1), ("other", c2)):
           r = (c - info["cost"]) / Pd["scale"] / bound
+          if not (r <= 1):
+            qacc_ok[w] = False
           rec.check()
           rec.worst(f"dense_vs_sparse:cost_gap:{nm}", r)
           if r > cmp.VIOL_FACTOR:
@@ -419,6 +423,9 @@ def run_case(case):
         a, b = mw.npy(getattr(d, f)), mw.npy(getattr(d2, f))
         for w in range(nworld):
           if (int(mw.overflow(d)[w]) | int(mw.overflow(d2)[w])) & (E.OVF_ITER | E.OVF_LS | E.OVF_NEFC | E.OVF_NNZ | E.OVF_CONTACT):
+            continue
+          if not qacc_ok[w]:
+            rec.count("next_state_not_judged(qacc of the two runs not certified: iteration limit / ill-conditioned / grey)")
             continue
           if not rows_agree[w]:
             continue  # a row difference was already reported (or was not judged); the next state only echoes it
